@@ -164,16 +164,16 @@ Theorem C20_history_success_keeps_fresh : forall o o' r,
 Proof. exact history_success_keeps_fresh. Qed.
 Print Assumptions C20_history_success_keeps_fresh.
 
-(* ... but FBad is never cleared: an object that once saw a bad proof refuses everything afterwards,
-   the genuine proof it is edited back to included (refutes "fresh verdict for every history") *)
+(* FBad is a field of the value and ExtractMatches never clears it: an object carrying FBad = true is
+   refused whatever its other fields are (shown on the fields of a genuine proof in the example) *)
 Theorem C20_history_sticky_fbad : forall (A : Type) (H : A -> A -> A) (eqA : A -> A -> bool) n hashes bits,
   extract_hist A H eqA true n hashes bits = (None, true).
 Proof. exact extract_hist_sticky. Qed.
 Print Assumptions C20_history_sticky_fbad.
 
-Theorem C20_history_sticky_fbad_refuted :
+Theorem C20_history_sticky_fbad_example :
   exists n hashes bits r,
     extract term Hn term_eqb n hashes bits = Some r /\
     fst (extract_hist term Hn term_eqb true n hashes bits) = None.
-Proof. exact history_sticky_fbad_refuted. Qed.
-Print Assumptions C20_history_sticky_fbad_refuted.
+Proof. exact history_sticky_fbad_example. Qed.
+Print Assumptions C20_history_sticky_fbad_example.
